@@ -22,7 +22,8 @@ def stage_blocks(case, stage):
     for b in range(case['blocks']):
         idx = stage * case['blocks'] + b
         bias1, bias2 = case['bias'][b % len(case['bias'])]
-        out.append((str(idx), ds_doubles.mlp_weights(case['h'], case['f'], bias1, bias2, case['seed'] * 31 + idx)))
+        out.append((str(idx), ds_doubles.mlp_weights(case['h'], case['f'], bias1, bias2, case['seed'] * 31 + idx,
+                                                       kmodel.dt(case.get('param_dtype')) or torch.float32)))
     return out
 
 
@@ -30,7 +31,8 @@ def batch(case, stage, data_coord, seed, micro=0):
     gen = torch.Generator().manual_seed(seed * 1009 + stage * 131 + data_coord * 17 + micro * 7 + 1)
     x = torch.randn(case['N'], case['h'], generator=gen)
     r = torch.randn(case['N'], case['h'], generator=gen)
-    return x, r
+    pd = kmodel.dt(case.get('param_dtype')) or torch.float32
+    return x.to(pd), r.to(pd)
 
 
 def loss_fn(y, r, n):
@@ -44,6 +46,10 @@ def gpt_kwargs(case):
     for k in HP_KEYS:
         if k in case.get('hp', {}):
             kw[k] = hp_callable(case['hp'][k])
+    if case.get('factor_dtype'):
+        kw['factor_dtype'] = kmodel.dt(case['factor_dtype'])
+    if case.get('inv_dtype'):
+        kw['inv_dtype'] = kmodel.dt(case['inv_dtype'])
     return kw
 
 
